@@ -107,7 +107,7 @@ func (p *Path) timerStruct(tname string, ch *Chan) Ptr {
 // timeNow returns a time.Time carrying a symbolic, non-decreasing monotonic reading.
 func (p *Path) timeNow() Value {
 	ts := p.e.ts
-	t := p.newInput("now", BVSort(64))
+	t := p.newInput("time.Now", BVSort(64))
 	// 0 <= prev <= t < 2^62
 	lo := ts.BV(64, 0)
 	if p.clock != nil {
